@@ -72,7 +72,7 @@ def make_history(rng):
                Field("e", "enum", variants=["red", "Green", "b_2"]), Field("t", "datetime"), Field("d", "date"),
                Field("os", "string", optional=True), Field("oi", "int", optional=True),
                Field("of", "float", optional=True), Field("ob", "bool", optional=True),
-               Field("ot", "datetime", optional=True)]
+               Field("ot", "datetime", optional=True), Field("ou", "u64", optional=True), Field("od", "date", optional=True)]
     # randomise field order (projection / alignment bugs depend on it)
     head, rest = fields[:1], fields[1:]
     rng.shuffle(rest)
@@ -98,7 +98,7 @@ def make_history(rng):
         e = rng.choice(schema.by_name["e"].variants); put("e", e, e, "variant")
         t = rng.choice(tv); put("t", t[0], t[1], t[2])
         d = rng.choice(dv); put("d", d[0], d[1], d[2])
-        for name, pool in (("os", sv), ("oi", iv), ("of", fv), ("ot", tv)):
+        for name, pool in (("os", sv), ("oi", iv), ("of", fv), ("ot", tv), ("ou", uv), ("od", dv)):
             r = rng.random()
             if r < 0.3:
                 expect[name] = None; cls[name] = "absent"
@@ -106,7 +106,7 @@ def make_history(rng):
                 stored[name] = None; expect[name] = None; cls[name] = "null"
             else:
                 v = rng.choice(pool)
-                if name == "ot":
+                if name in ("ot", "od"):
                     put(name, v[0], v[1], v[2])
                 else:
                     put(name, v[0], v[0], v[1])
